@@ -249,6 +249,7 @@ def worker_main(path):
         if not close(fn.deriv(r, *p), num1, scale=abs(fn(r, *p)) / r, tol=1e-6) or not close(fn.deriv2(r, *p), num2, scale=abs(fn.deriv(r, *p)) / r, tol=1e-6):
             fail("deriv", "as.%s %s at r=%s: .deriv = %r (slope of the energy %r), .deriv2 = %r (slope of .deriv %r)" % (nm, p, r, fn.deriv(r, *p), num1, fn.deriv2(r, *p), num2), None)
     n += buck4_cases(data.get("buck4", []), fail)
+    n += tang_toennies_cases(data.get("tt", []), fail)
     json.dump(dict(bad=bad, n=n), sys.stdout)
 
 
@@ -265,6 +266,39 @@ def solve_exact(rows, rhs):
                 f = m[i][c]
                 m[i] = [a - f * b for a, b in zip(m[i], m[c])]
     return [m[i][k] for i in range(k)]
+
+
+def tang_toennies_cases(cases, fail):
+    """Builtin.tla TTCases: the damping polynomial identity (exact rational right-hand side), the repulsive term alone, and
+    linearity in (A, C_6, C_8, C_10)"""
+    from fractions import Fraction as F
+    from atsim.potentials import potentialfunctions as PFn
+    BOHR, EH = 0.5292, 27.211
+    n = 0
+    for c in cases:
+        k, x, R = c["n"], F(*c["x"]), F(*c["R"])
+        b = float(F(*c["b"]))
+        P = sum(F(*co) * x ** i for i, co in enumerate(c["poly"]))
+        r = BOHR * float(R)
+        for coef in (1.5, 129.6, -40.0):
+            Cs = [coef if j == k else 0.0 for j in (3, 4, 5)]
+            n += 1
+            v = PFn.tang_toennies(r, 0.0, b, *Cs)
+            lhs = (1.0 + v * float(R) ** (2 * k) / (EH * coef)) * math.exp(float(x))
+            if abs(lhs - float(P)) > 1e-9 * float(P):
+                fail("closed-form", "as.tang_toennies 0 %s with C_%d = %s alone at r = %s Bohr: (1 + V R^%d / (Eh C)) exp(bR) = %r, the damping polynomial sum_{k<=%d} (bR)^k/k! is %r" % (
+                    b, 2 * k, coef, float(R), 2 * k, lhs, 2 * k, float(P)), None)
+        # the repulsive term alone, and linearity in the coefficients
+        A = 832.4
+        n += 2
+        va = PFn.tang_toennies(r, A, b, 0.0, 0.0, 0.0)
+        if abs(va - EH * A * math.exp(-b * float(R))) > 1e-12 * abs(va):
+            fail("closed-form", "as.tang_toennies %s %s 0 0 0 at r = %s Bohr = %r, Eh A exp(-bR) = %r" % (A, b, float(R), va, EH * A * math.exp(-b * float(R))), None)
+        parts = [va, PFn.tang_toennies(r, 0.0, b, 129.6, 0.0, 0.0), PFn.tang_toennies(r, 0.0, b, 0.0, 4187.0, 0.0), PFn.tang_toennies(r, 0.0, b, 0.0, 0.0, 155500.0)]
+        whole = PFn.tang_toennies(r, A, b, 129.6, 4187.0, 155500.0)
+        if abs(whole - sum(parts)) > 1e-12 * sum(abs(p) for p in parts):
+            fail("closed-form", "as.tang_toennies %s %s 129.6 4187 155500 at r = %s Bohr = %r, the sum of its four terms taken alone is %r" % (A, b, float(R), whole, sum(parts)), None)
+    return n
 
 
 def buck4_cases(cases, fail):
@@ -385,6 +419,7 @@ def run_forms(run, want):
                 special = tlc.read_ndjson(os.path.join(res.outdir, "special.ndjson"))
                 sig = tlc.read_ndjson(os.path.join(res.outdir, "sig.ndjson"))[0]
                 buck4 = tlc.read_ndjson(os.path.join(res.outdir, "buck4.ndjson"))
+                tt = tlc.read_ndjson(os.path.join(res.outdir, "tt.ndjson"))
                 factory_only = set(tlc.read_ndjson(os.path.join(res.outdir, "factoryonly.ndjson")))
         finally:
             tlc.cleanup(res)
@@ -406,7 +441,7 @@ def run_forms(run, want):
                 got = list(inspect.signature(fn.__call__).parameters)
                 if got != ["r"] + list(params):
                     run.violation(dict(engine="forms", clause="signature"), "as.%s takes %s, the manual documents (r, %s)" % (nm, got, ", ".join(params)), dict(form=nm))
-            data = dict(exact=exact, special=special, buck4=buck4, lattice_r=[0.5, 1.0, 1.5, 2.0, 3.0],
+            data = dict(exact=exact, special=special, buck4=buck4, tt=tt, lattice_r=[0.5, 1.0, 1.5, 2.0, 3.0],
                         buck_params=[[1000.0, 0.3, 32.0], [32.0, 1000.0, 0.3], [0.3, 32.0, 1000.0], [-5.0, 0.5, 0.0]],
                         morse_params=[[1.5, 2.0, 0.5], [2.0, 0.5, 1.5], [0.5, 1.5, 2.0]],
                         expspline_params=[[0.1, -0.2, 0.05, 0.01, -0.002, 0.0003, 0.0], [0.1, -0.2, 0.05, 0.01, -0.002, 0.0003, 2.5],
